@@ -517,7 +517,13 @@ inductive STrans (b : BState) : BState → Prop where
   | entryKeep (now shard rest id p) : rest.find? (fun p => p.1 == id) = some p → b.sw = .entry now shard rest →
       STrans b (sweepNext b now shard (rest.filter (fun p => p.1 != id)))
   | kwRemoveSome (now shard rest id wk) : b.g.adm.kw.get? id = some wk → b.sw = .kwRemove now shard rest id →
+      unexpiredWithId b.g wk.key id = false →
       STrans b { b with g := { b.g with adm := { b.g.adm with kw := b.g.adm.kw.del id } }, sw := .sub now shard rest id wk }
+  /-- the branch of fix 36c87dc: the key id is charged, but the value stored under its key (same id) has not itself
+      expired — the sweeper leaves it and moves on; nothing changes but its position -/
+  | kwRemoveSkip (now shard rest id wk) : b.g.adm.kw.get? id = some wk → b.sw = .kwRemove now shard rest id →
+      unexpiredWithId b.g wk.key id = true →
+      STrans b (sweepNext b now shard rest)
   | kwRemoveNone (now shard rest id) : b.g.adm.kw.get? id = none → b.sw = .kwRemove now shard rest id →
       STrans b (sweepNext b now shard rest)
   | sub (now shard rest id wk) : wuFree b .sweeper = true → b.sw = .sub now shard rest id wk →
@@ -549,9 +555,13 @@ theorem sweeperAct_trans {b b' : BState} {v : Option Nat} (h : sweeperAct b v = 
   | kwRemove now shard rest id =>
     simp only [sweeperAct, hs] at h
     split at h
-    all_goals simp only [Except.ok.injEq] at h; subst h
-    · exact .kwRemoveSome now shard rest id _ (by assumption) hs
-    · exact .kwRemoveNone now shard rest id (by assumption) hs
+    · split at h
+      all_goals simp only [Except.ok.injEq] at h; subst h
+      · exact .kwRemoveSkip now shard rest id _ (by assumption) hs (by assumption)
+      · rename_i hu
+        exact .kwRemoveSome now shard rest id _ (by assumption) hs (by simpa using hu)
+    · simp only [Except.ok.injEq] at h; subst h
+      exact .kwRemoveNone now shard rest id (by assumption) hs
   | sub now shard rest id wk =>
     simp only [sweeperAct, hs] at h
     split at h
@@ -1664,7 +1674,7 @@ theorem strans_kw {b b' : BState} (h : STrans b b') (f : Nat) (wk : WKey) (hf : 
 theorem strans_kw_other {b b' : BState} (h : STrans b b') (f : Nat) (hf : f ∉ usedIds b) :
     b'.g.adm.kw.get? f = b.g.adm.kw.get? f := by
   cases h
-  case kwRemoveSome now shard rest id wk hg hs =>
+  case kwRemoveSome now shard rest id wk hg hs hu =>
     have : id ≠ f := by
       intro e; subst e
       apply hf
@@ -2105,7 +2115,7 @@ theorem acctInv_wtrans {b b' : BState} (hk : KwInv b) (hs : AcctInv b) (hi : IdI
 theorem kwInv_strans {b b' : BState} (hs : KwInv b) (h : STrans b b') : KwInv b' := by
   obtain ⟨h1, h2, h4, h5⟩ := hs
   cases h
-  case kwRemoveSome now shard rest id wk hg hsw =>
+  case kwRemoveSome now shard rest id wk hg hsw hu =>
     refine ⟨AMap.noDup_del h1 _, positive_del h2 _, h4, ?_⟩
     simp [SPc.victim?]; exact h2 _ _ hg
   all_goals (try unfold sweepNext)
@@ -2120,7 +2130,7 @@ theorem acctInv_strans {b b' : BState} (hk : KwInv b) (hs : AcctInv b) (h : STra
   obtain ⟨h1, h2, h4, h5⟩ := hk
   obtain ⟨h3, h6⟩ := hs
   cases h
-  case kwRemoveSome now shard rest id wk hg hsw =>
+  case kwRemoveSome now shard rest id wk hg hsw hu =>
     refine ⟨?_, h6⟩
     simp [pendingAdd, pendingSub, hsw, sumW_del h1 hg] at h3 ⊢; omega
   all_goals (try unfold sweepNext)
